@@ -4,3 +4,4 @@ open Fzf.Props.C07
 #print axioms C07_output_order
 #print axioms C07_items_carry_original
 #print axioms C07_filter_prints_originals
+#print axioms C07_expect_line_order
